@@ -207,6 +207,20 @@ def run(ctx):
                 fn = ['EXTMATCH'] + flag_choice(rng, path_mode, idx)
                 with ctx.case(label=(gen.ser(toks), fn)):
                     check(ctx, G if path_mode else F, gen.ser(toks), None, fn, universe(ctx, toks, rng, path_mode, fn), toks)
+    # bracket expressions holding characters that are special to the *regex* layer (and the internal group marker)
+    special = [('c', c) for c in '(?#)&|~[^$\\.*+{}-']
+    for si in range(len(special)):
+        idx += 1
+        if not ctx.mine(idx):
+            continue
+        for width in (1, 2, 4):
+            items = tuple(special[(si + j) % len(special)] for j in range(width))
+            for neg in (False, True):
+                toks = (('lit', 'x'), ('set', neg, items, '!'), ('grp', '@', ((('lit', 'y'),),)))
+                for path_mode in (False, True):
+                    names = ['x' + it[1] + 'y' for it in special] + ['xy', 'xay', 'x(?#)y']
+                    with ctx.case(label=gen.ser(toks)):
+                        check(ctx, G if path_mode else F, gen.ser(toks), None, ['EXTMATCH'], names, toks)
     k = 0
     limit = 120 if quick else 10 ** 9
     while k < limit and not ctx.out_of_time():
